@@ -135,9 +135,13 @@ impl Packet {
                     assert(b.out() == out0 + wire(pview(*self))) by { broadcast use seq_assoc::lemma_concat_assoc; }   // @C16 to_bytes.arm_writes_the_wire_format
                 }
 //@after /b\.put_bytes\(&slice\.payload\)\?;/ 1
-                proof { assert(b.out() == out0 + wire(pview(*self))) by { broadcast use seq_assoc::lemma_concat_assoc; }   // @C16 to_bytes.arm_writes_the_wire_format }
+                proof {
+                    assert(b.out() == out0 + wire(pview(*self))) by { broadcast use seq_assoc::lemma_concat_assoc; }   // @C16 to_bytes.arm_writes_the_wire_format
+                }
 //@after /b\.put_bytes\(&slice\.payload\)\?;/ 2
-                proof { assert(b.out() == out0 + wire(pview(*self))) by { broadcast use seq_assoc::lemma_concat_assoc; }   // @C16 to_bytes.arm_writes_the_wire_format }
+                proof {
+                    assert(b.out() == out0 + wire(pview(*self))) by { broadcast use seq_assoc::lemma_concat_assoc; }   // @C16 to_bytes.arm_writes_the_wire_format
+                }
 //@endfn
 
 //@fn renet/src/packet.rs Packet::from_bytes
